@@ -302,6 +302,39 @@ func (p c11) Exec(c *fw.Ctx, u *fw.Unit) {
 			return
 		}
 	}
+	// the same request under the same colour model with ink and paper exchanged, and
+	// then under the first scheme again, in this process: a result must carry the colours
+	// of its own call, not those of an earlier call with the same model and size
+	if req.Scheme >= 0 && req.Scheme < swappedSchemeBase {
+		sr := req
+		sr.Scheme += swappedSchemeBase
+		so := sr.call()
+		if so.panic != nil || so.err != nil || so.bc == nil {
+			c.Violation("render/"+fam+"/rejected-under-scheme", fmt.Sprintf("refused or panicked with ink and paper exchanged: %v %v", so.err, so.panic), sr.String(), "")
+			return
+		}
+		sg, serr := gridScheme(so.bc, bgc, fgc)
+		if serr != nil {
+			c.Violation("render/"+fam+"/pixel-not-in-scheme", "with ink and paper exchanged after a call with the same model: "+serr.Error(), sr.String(), fmt.Sprintf("scheme fg=%#v bg=%#v", bgc, fgc))
+			return
+		}
+		again := req.call()
+		var ag *refdec.Grid
+		if again.bc != nil {
+			ag, err = gridScheme(again.bc, fgc, bgc)
+		}
+		if again.bc == nil || err != nil {
+			c.Violation("render/"+fam+"/pixel-not-in-scheme", fmt.Sprintf("repeating the call after one with exchanged colours: %v %v", again.err, err), inner, "")
+			return
+		}
+		for i := range g.Dark {
+			if sg.W != g.W || sg.H != g.H || ag.W != g.W || ag.H != g.H || sg.Dark[i] != g.Dark[i] || ag.Dark[i] != g.Dark[i] {
+				c.Violation("render/"+fam+"/pattern-depends-on-scheme", fmt.Sprintf("module %d differs between the rendering, the one with exchanged colours and the repeated one", i), inner, "")
+				return
+			}
+		}
+		c.Cover("exchanged_colours_same_model", fam)
+	}
 	// optional fast-path accessors must agree with At
 	if fast, ok := bc.(interface {
 		RGBA64At(x, y int) color.RGBA64
